@@ -29,7 +29,7 @@ EDGE_IDS = ['e1', 'e2', 'e3', 'e4', None, None]
 OPS = ['add_node', 'new_node', 'remove_node', 'add_edge', 'add_edge', 'new_edge', 'remove_edge', 'set_ext', 'copy', 'new_graph',
        'new_factorgraph', 'new_hrg', 'new_fgg', 'add_rule', 'new_rule', 'set_start', 'add_node_label', 'add_edge_label',
        'add_domain', 'new_finite_domain', 'add_factor', 'new_finite_factor', 'from_graph', 'from_hrg', 'remove_twin_node', 'remove_twin_edge',
-       'set_ext_twin', 'add_edge_twin_node', 'set_weights', 'set_weights']
+       'set_ext_twin', 'add_edge_twin_node', 'set_weights', 'set_weights', 'add_edge_clash_in_call', 'set_ext_clash_in_call']
 
 
 def budget(tier):
@@ -201,7 +201,7 @@ def check(case, ctx):
         new_obj = None
         # ---------------- choose target and build the call
         if op in ('add_node', 'new_node', 'remove_node', 'add_edge', 'new_edge', 'remove_edge', 'set_ext', 'remove_twin_node',
-                  'remove_twin_edge', 'set_ext_twin', 'add_edge_twin_node'):
+                  'remove_twin_edge', 'set_ext_twin', 'add_edge_twin_node', 'add_edge_clash_in_call', 'set_ext_clash_in_call'):
             g = pick(lambda o: is_graph(o) and id(o) not in frozen, step['o'])
             if g is None: continue
             target = g
@@ -266,6 +266,28 @@ def check(case, ctx):
                 ext = [node_arg(g, b + i, c + i) for i in range(k)]
                 keep.extend(ext)
                 call = (lambda: setattr(g, 'ext', ext)) if d % 2 else (lambda: setattr(g, 'ext', tuple(ext)))
+            elif op in ('add_edge_clash_in_call', 'set_ext_clash_in_call'):
+                # two different new nodes (same id, different labels) brought in by ONE call: the clash is among the arguments,
+                # not with a node already present
+                nid = NODE_IDS[d % len(NODE_IDS)]
+                if op == 'set_ext_clash_in_call':
+                    la, lb = NL[a % 3], NL[(a + 1 + b % 2) % 3]
+                    ext = [fggs.Node(nl[la], id=nid), fggs.Node(nl[lb], id=nid)]
+                    if c % 3 == 0 and nodes: ext.insert(c % 2, nodes[c % len(nodes)])
+                    keep.extend(ext); ctx.label('clash-within-call')
+                    call = lambda: setattr(g, 'ext', ext)
+                else:
+                    lab = None
+                    for t in range(4):
+                        cand = el(EL_NAMES[(a + t) % 4], b)
+                        if len({x.name for x in cand.type}) >= 2: lab = cand; break
+                    if lab is None: continue
+                    att = [fggs.Node(t, id=nid) for t in lab.type]
+                    keep.extend(att); ctx.label('clash-within-call')
+                    eid = EDGE_IDS[c % len(EDGE_IDS)]
+                    def call(lab=lab, att=att, eid=eid):
+                        e = fggs.Edge(lab, att, id=eid); keep.append(e)
+                        g.add_edge(e)
             elif op == 'set_ext_twin':
                 if not nodes: continue
                 v0 = nodes[a % len(nodes)]
